@@ -1583,3 +1583,117 @@ def copy_propagation(tree: ast.Module) -> None:
             if not done:
                 break
     ast.fix_missing_locations(tree)
+
+
+# ---------------------------------------------------------------------------
+
+def expand_member_factories(tree: ast.Module) -> None:
+    """class C: x = _factory(<constants>)   where the private module-level _factory is nothing but
+           def inner(self, ..): ...          (one nested function over the factory's parameters)
+           inner.__name__ = .. / inner.__qualname__ = .. / inner.__doc__ = ..     (metadata only)
+           return inner   |   return property(inner)
+    is the method (or read-only property) it builds: `def x(self, ..): ...` with the factory's parameters replaced by the constants (decorated
+    with @property in the second form).  Seventeen hand-written methods and seventeen calls of a factory are the same class."""
+    from .normalize import anchors
+    anch = anchors()
+    facts: Dict[str, Tuple[ast.FunctionDef, ast.FunctionDef, bool]] = {}
+    for st in tree.body:
+        if not (isinstance(st, ast.FunctionDef) and st.name.startswith("_") and not st.name.startswith("__") and st.name not in anch and not st.decorator_list):
+            continue
+        if st.args.vararg or st.args.kwarg or st.args.kwonlyargs or st.args.defaults:
+            continue
+        body = [x for x in st.body if not (isinstance(x, ast.Expr) and isinstance(x.value, ast.Constant))]
+        inner = [x for x in body if isinstance(x, ast.FunctionDef)]
+        rets = [x for x in body if isinstance(x, ast.Return)]
+        if len(inner) != 1 or len(rets) != 1 or body[-1] is not rets[0] or inner[0].decorator_list:
+            continue
+        g = inner[0]
+        meta_ok = True
+        for x in body:
+            if x is g or x is rets[0]:
+                continue
+            if isinstance(x, ast.Assign) and len(x.targets) == 1 and isinstance(x.targets[0], ast.Attribute) and isinstance(x.targets[0].value, ast.Name) and x.targets[0].value.id == g.name \
+                    and x.targets[0].attr in ("__name__", "__qualname__", "__doc__"):
+                continue
+            meta_ok = False
+        if not meta_ok:
+            continue
+        rv = rets[0].value
+        if isinstance(rv, ast.Name) and rv.id == g.name:
+            facts[st.name] = (st, g, False)
+        elif isinstance(rv, ast.Call) and isinstance(rv.func, ast.Name) and rv.func.id == "property" and len(rv.args) == 1 and not rv.keywords and isinstance(rv.args[0], ast.Name) and rv.args[0].id == g.name:
+            facts[st.name] = (st, g, True)
+    if not facts:
+        return
+    for cd in [n for n in tree.body if isinstance(n, ast.ClassDef)]:
+        for i, st in enumerate(cd.body):
+            if not (isinstance(st, ast.Assign) and len(st.targets) == 1 and isinstance(st.targets[0], ast.Name) and isinstance(st.value, ast.Call) and isinstance(st.value.func, ast.Name)
+                    and st.value.func.id in facts and not st.value.keywords and all(isinstance(a, ast.Constant) for a in st.value.args)):
+                continue
+            F, g, is_prop = facts[st.value.func.id]
+            params = [a.arg for a in F.args.posonlyargs + F.args.args]
+            if len(params) != len(st.value.args):
+                continue
+            m = dict(zip(params, st.value.args))
+            # the nested function must not re-bind the factory's parameters
+            if any(isinstance(n, ast.Name) and n.id in m and isinstance(n.ctx, (ast.Store, ast.Del)) for n in ast.walk(g)) or any(a.arg in m for a in g.args.posonlyargs + g.args.args + g.args.kwonlyargs):
+                continue
+
+            class S(ast.NodeTransformer):
+                def visit_Name(self, n: ast.Name):
+                    if isinstance(n.ctx, ast.Load) and n.id in m:
+                        return copy.deepcopy(m[n.id])
+                    return n
+            nf = copy.deepcopy(g)
+            nf.body = [S().visit(x) for x in nf.body]
+            nf.name = st.targets[0].id
+            nf.decorator_list = [ast.Name(id="property", ctx=ast.Load())] if is_prop else []
+            ast.copy_location(nf, st)
+            for x in ast.walk(nf):
+                if isinstance(x, (ast.stmt, ast.expr, ast.arg)) and not hasattr(x, "lineno"):
+                    ast.copy_location(x, st)
+            cd.body[i] = nf
+    ast.fix_missing_locations(tree)
+
+
+def explicit_super(tree: ast.Module) -> None:
+    """super(C, self) inside a method of class C whose first parameter is self: the zero-argument super()."""
+    for cd in [n for n in ast.walk(tree) if isinstance(n, ast.ClassDef)]:
+        for fn in [x for x in cd.body if isinstance(x, ast.FunctionDef)]:
+            if not fn.args.args:
+                continue
+            sn = fn.args.args[0].arg
+            for n in ast.walk(fn):
+                if isinstance(n, ast.Call) and isinstance(n.func, ast.Name) and n.func.id == "super" and len(n.args) == 2 and not n.keywords and isinstance(n.args[0], ast.Name) \
+                        and n.args[0].id == cd.name and isinstance(n.args[1], ast.Name) and n.args[1].id == sn:
+                    n.args = []
+
+
+
+def yield_from_genexp(tree: ast.Module) -> None:
+    """yield from (E for v in IT if C)   ->   for v in IT: if C: yield E     (single generator; v must be new to the function)."""
+    for fn in [n for n in ast.walk(tree) if isinstance(n, (ast.FunctionDef, ast.AsyncFunctionDef))]:
+        for holder in ast.walk(fn):
+            for fld in ("body", "orelse", "finalbody"):
+                body = getattr(holder, fld, None)
+                if not (isinstance(body, list) and body and isinstance(body[0], ast.stmt)):
+                    continue
+                for i, st in enumerate(body):
+                    if not (isinstance(st, ast.Expr) and isinstance(st.value, ast.YieldFrom) and isinstance(st.value.value, (ast.GeneratorExp, ast.ListComp)) and len(st.value.value.generators) == 1):
+                        continue
+                    ge = st.value.value
+                    g = ge.generators[0]
+                    gn = {n.id for n in ast.walk(g.target) if isinstance(n, ast.Name)}
+                    others = {n.id for x in fn.body for n in ast.walk(x) if isinstance(n, ast.Name)} - {n.id for n in ast.walk(ge) if isinstance(n, ast.Name)}
+                    if gn & others or g.is_async:
+                        continue
+                    inner: List[ast.stmt] = [ast.Expr(value=ast.Yield(value=ge.elt))]
+                    for c in reversed(g.ifs):
+                        inner = [ast.If(test=c, body=inner, orelse=[])]
+                    loop = ast.For(target=g.target, iter=g.iter, body=inner, orelse=[], type_comment=None)
+                    ast.copy_location(loop, st)
+                    for x in ast.walk(loop):
+                        if isinstance(x, (ast.stmt, ast.expr)) and not hasattr(x, "lineno"):
+                            ast.copy_location(x, st)
+                    body[i] = loop
+    ast.fix_missing_locations(tree)
